@@ -150,7 +150,9 @@ Definition place_eqb (a b : place) : bool :=
 Inductive cop :=
 | Present (w : place) (j : nat) (c : chal)       (* j: index of the presenting issuer in Config.Issuers *)
 | Clean (w : place) (j : nat) (c : chal)
-| Tamper (j : nat) (name : str) (v : option sval). (* storage fault: file corrupted / emptied / removed *)
+| Tamper (j : nat) (name : str) (v : option sval)  (* storage fault: file corrupted / emptied / removed *)
+| Ask.   (* this process served some request (HTTP or ClientHello): the handlers only read the
+            challenge memory and the storage, so answering leaves the state as it is *)
 
 Section Sys.
   Variable sf : str -> str.            (* KeyBuilder.Safe *)
@@ -177,6 +179,7 @@ Section Sys.
                 | Some x => aset skey_eqb (tkey (ikof j) name) x (store s)
                 | None => adel skey_eqb (tkey (ikof j) name) (store s)
                 end)
+    | Ask => s
     end.
   Definition run (ops : list cop) : cstate := fold_left step ops cinit.
 
@@ -243,6 +246,7 @@ Section Sys.
     | Present w j c => (w, j, c) :: p
     | Clean w j c => filter (fun e => negb (pent_eqb e (w, j, c))) p
     | Tamper _ _ _ => p
+    | Ask => p
     end.
   Definition pending (ops : list cop) : list pent := fold_left pstep ops [].
 
@@ -260,6 +264,7 @@ Section Sys.
         | Present w j c => fresh_key p c && (negb (has_store w) || Nat.ltb j (length issuers)) && wf_from (pstep p o) r
         | Clean w j c => existsb (pent_eqb (w, j, c)) p && wf_from (pstep p o) r
         | Tamper _ _ _ => false
+        | Ask => wf_from p r
         end
     end.
   Definition wf (ops : list cop) : bool := wf_from [] ops.
